@@ -164,7 +164,10 @@ def rule_eq_hash_wiring(ck, repo, R):
         eq, hs, st = c.method('__eq__'), c.method('__hash__'), c.method('__str__')
         ck.require(eq is not None and hs is not None and st is not None, f'{c.name}.__eq__/__hash__/__str__ vanished')
         b = strip_doc(eq.node.body)
-        ok = len(b) == 1 and isinstance(b[0], ast.Return) and src(b[0].value) == f'isinstance(other, {base}) and str(self) == str(other)'
+        ok = False
+        if len(b) == 1 and isinstance(b[0], ast.Return) and isinstance(b[0].value, ast.BoolOp) and isinstance(b[0].value.op, ast.And):
+            cs = {src(v) for v in b[0].value.values}
+            ok = cs in ({f'isinstance(other, {base})', 'str(self) == str(other)'}, {f'isinstance(other, {base})', 'str(other) == str(self)'})
         ck.decide(ok, R, f'{c.name}.__eq__', src(b[0].value) if b and isinstance(b[0], ast.Return) else None,
                   f'{c.name}.__eq__ is no longer `isinstance(other, {base}) and str(self) == str(other)`', file=eq.file, line=eq.lineno, func=eq.qualname)
         b = strip_doc(hs.node.body)
